@@ -226,6 +226,11 @@ fn main() {
         std::process::exit(replay_file(&id, &path));
     }
     let thorough = tier_is_thorough(&tier);
+    let level = match id.as_str() {
+        "C01" | "C04" | "C07" | "C09" | "C10" | "C11" | "C16" | "C18" | "C19" => "model_checking",
+        _ => "exploration",
+    };
+    start_watchdog(id.clone(), tier.clone(), level.to_string(), 20);
     let report = match id.as_str() {
         "C01" => c01::run(thorough),
         "C02" => c02::run(thorough),
